@@ -33,7 +33,7 @@ func init() {
 		},
 		N: func(tier string) int {
 			if tier == "quick" {
-				return 4000
+				return 20000
 			}
 			return 200000
 		},
